@@ -577,6 +577,10 @@ def align_variable_names_with_convention(
 
     transaction = 0
     for substitute, nodes in substitute_node_renamings.items():
+        # fooBar and FooBar would both become foo_bar, and then be one variable instead of two
+        names = {node.id if isinstance(node, ast.Name) else getattr(node, "name", None) for node in nodes}
+        if len(names) > 1:
+            continue
         replacements = []
         for node in nodes:
             if isinstance(node, ast.Name):
